@@ -40,7 +40,10 @@ impl KeGroup for Curve25519 {
             .try_into()
             .ok()
             .map(MontgomeryPoint)
-            .filter(|pk| pk != &MontgomeryPoint::identity())
+            // Reject all points of small order (not only `u = 0`): multiplying by the
+            // cofactor maps exactly those to the identity, whatever their encoding. A
+            // small-order public key would force an all-zero shared secret.
+            .filter(|pk| pk * Scalar::from(8u8) != MontgomeryPoint::identity())
             .ok_or(InternalError::PointError)
     }
 
